@@ -21,8 +21,11 @@ func mustNotOpen(run *vk.Run, file []byte, id age.Identity, sig, what string) {
 	if err == nil || r != nil {
 		n := 0
 		if r != nil {
-			b, _ := io.ReadAll(r)
-			n = len(b)
+			func() {
+				defer func() { recover() }() // a reader that is a nil pointer in disguise crashes when used
+				b, _ := io.ReadAll(r)
+				n = len(b)
+			}()
 		}
 		run.Violation("C04:near-miss-accepted:"+sig, fmt.Sprintf("%s: Decrypt returned a reader (err=%v, %d bytes readable)", what, err, n), rp)
 		return
@@ -153,6 +156,7 @@ func nearMisses(run *vk.Run, w *world.World, pt []byte) {
 		}
 	}
 	// histories: a successful decryption must not help a later wrong identity (same process, same file)
+	right, _ = age.NewScryptIdentity(base) // a fresh value: this history starts with the identity opening its own file
 	for round := 0; round < 2; round++ {
 		r, err := age.Decrypt(bytes.NewReader(file), right)
 		if err != nil {
@@ -160,6 +164,20 @@ func nearMisses(run *vk.Run, w *world.World, pt []byte) {
 			break
 		}
 		io.ReadAll(r)
+		// the identity value that has just opened its own file still is the identity of that passphrase only: files for
+		// other passphrases (among them what a wiped or zeroed passphrase buffer would amount to) stay closed to it
+		for oi, other := range []string{"\x00", strings.Repeat("\x00", len(base)), strings.ToLower(base), base[:len(base)-1], base + " "} {
+			or, err := age.NewScryptRecipient(other)
+			if err != nil {
+				continue
+			}
+			or.SetWorkFactor(3)
+			of, err := encryptTo(or, msg)
+			if err != nil {
+				vk.Infra("%v", err)
+			}
+			mustNotOpen(run, of, right, fmt.Sprintf("used-identity-other-file-%d", oi), fmt.Sprintf("file for passphrase %q opened by the identity of %q after that identity had opened its own file", other, base))
+		}
 		for _, name := range []string{"trailing-space", "lower", "subst@3", "case@0"} {
 			wrong, _ := age.NewScryptIdentity(variants[name])
 			mustNotOpen(run, file, wrong, "passphrase-after-right", fmt.Sprintf("passphrase variant %q tried after the right passphrase had opened the same file in this process", variants[name]))
